@@ -445,9 +445,10 @@ theorem sim_remove {s : St} {a a' : ASt} {c : Nat} {r : Res}
           exact not_owner_of_nonquery hl hr pid ho
         · exact fun x => x.2
 
+/-- `BeginQuery`, every call inside the protocol — the two error returns included (no region guard
+since the repair of F-C37-a: an error return leaves the whole state, `Threads_running` too, as it was). -/
 theorem sim_beginQ {s : St} {a a' : ASt} {c pid : Nat} {r : Res}
-    (hs : Sim s a) (hi : PInv a.procs) (h : astep a (.beginQ c pid) = some (a', r))
-    (hr : regionBeginQueryError a (.beginQ c pid) = false) :
+    (hs : Sim s a) (hi : PInv a.procs) (h : astep a (.beginQ c pid) = some (a', r)) :
     (step s (.beginQ c pid)).2 = r ∧ Sim (step s (.beginQ c pid)).1 a' ∧ PInv a'.procs := by
   obtain ⟨hp, hc, hn, hcon, hrun, hby⟩ := hs
   simp only [astep] at h
@@ -455,12 +456,22 @@ theorem sim_beginQ {s : St} {a a' : ASt} {c pid : Nat} {r : Res}
   · cases h
   · rename_i hpid
     split at h
-    · rename_i hl
-      simp [regionBeginQueryError, hl, hpid] at hr
+    · -- error return 1: connection not registered; nothing changes
+      rename_i hl
+      cases h
+      have hl' : lookup s.procs c = none := by rw [hp]; exact hl
+      simp only [step, hl']
+      exact ⟨trivial, ⟨hp, hc, hn, hcon, hrun, hby⟩, hi⟩
     · rename_i p hl
       split at h
-      · rename_i c' ho
-        simp [regionBeginQueryError, ho, hpid] at hr
+      · -- error return 2: the query id is in use; nothing changes
+        rename_i c' ho
+        cases h
+        have hl' : lookup s.procs c = some p := by rw [hp]; exact hl
+        have hb : lookup s.byPid pid = some c' :=
+          (hby pid c').2 (pidOwner_some a.procs pid c' hi.nodup ho)
+        simp only [step, hl', hb]
+        exact ⟨trivial, ⟨hp, hc, hn, hcon, hrun, hby⟩, hi⟩
       · rename_i ho
         split at h
         · cases h
@@ -736,8 +747,8 @@ theorem sim_step {s : St} {a a' : ASt} {e : Ev} {r : Res}
   cases e with
   | add c => exact sim_add hs hi h
   | ready c => exact sim_ready hs hi h hr.2
-  | remove c => exact sim_remove hs hi h hr.1.2
-  | beginQ c pid => exact sim_beginQ hs hi h hr.1.1
+  | remove c => exact sim_remove hs hi h hr.1
+  | beginQ c pid => exact sim_beginQ hs hi h
   | endQ c pid => exact sim_endQ hs hi h
   | beginOp c => exact sim_beginOp hs hi h
   | endOp c => exact sim_endOp hs hi h
@@ -1087,15 +1098,16 @@ namespace Gms.C37
 open Gms.ProcList
 
 /-- **Refinement (guarded: `refinement_partial`).** For *every* history of calls that stays inside
-the protocol of `sql.ProcessList` (the Spec machine `astep` answers every call) and avoids the three
-listed defect regions, the Impl model of `ProcessList` returns the Spec's result at every call and
+the protocol of `sql.ProcessList` (the Spec machine `astep` answers every call) and avoids the two
+listed defect regions (`remove_during_query`, `ready_during_operation`; the error returns of
+`BeginQuery` are covered since the repair of F-C37-a, see `beginQuery_refines`), the Impl model of `ProcessList` returns the Spec's result at every call and
 after every call its state is the Spec state plus exact redundant data: same session table
 (`Processes()` shows exactly the connected sessions, each with the query it is running), same set
 of cancelled contexts, `Threads_connected`/`Threads_running` equal to the derived counts, and
 `byQueryPid` exactly the ground-truth owner relation.
 
 The unguarded statement (without `noRegion`) is false for the code that exists — see
-`finding_begin_query_error_path`, `finding_remove_during_query`, `finding_ready_during_operation`:
+`finding_remove_during_query`, `finding_ready_during_operation`:
 
     theorem refinement (es tr) (ht : atrace ASt.init es = some tr) : SimTrace (run St.init es) tr -/
 theorem refinement_partial (es : List Ev) (tr : List (ASt × Res))
@@ -1132,6 +1144,18 @@ covered (inside the protocol, outside the regions). -/
 def sampleHistory : List Ev :=
   [.add 1, .ready 1, .add 2, .ready 2, .beginQ 1 1, .kill 1, .beginOp 1, .endQ 1 1, .endQ 1 1,
    .beginOp 2, .kill 7, .endOp 2, .beginQ 2 2, .beginQ 1 3, .kill 2, .endQ 2 2, .remove 2, .endQ 1 3, .remove 1]
+
+/-- Non-vacuity for the error returns of `BeginQuery` (covered since the repair of F-C37-a): an
+unregistered connection, a query id in use by another connection, the same after the query ended. -/
+def sampleHistoryErr : List Ev :=
+  [.beginQ 1 1, .add 1, .ready 1, .add 2, .ready 2, .beginQ 1 1, .beginQ 2 1, .beginQ 3 2, .endQ 1 1,
+   .beginQ 2 1, .beginQ 2 1, .endQ 2 1, .remove 1, .beginQ 1 4, .remove 2]
+
+example : (atrace ASt.init sampleHistoryErr).isSome = true ∧ noRegion ASt.init sampleHistoryErr = true := by decide
+example : (run St.init sampleHistoryErr).map (·.2) =
+    [.errNotRegistered, .done, .done, .done, .done, .ok 0, .errPidUsed, .errNotRegistered, .done,
+     .ok 1, .errPidUsed, .done, .done, .errNotRegistered, .done] ∧
+    (run St.init sampleHistoryErr).map (·.1.running) = [0, 0, 0, 0, 0, 1, 1, 1, 0, 1, 1, 0, 0, 0, 0] := by decide
 
 example : (atrace ASt.init sampleHistory).isSome = true ∧ noRegion ASt.init sampleHistory = true := by decide
 example : (exec St.init sampleHistory).cancelled = [3, 2, 1, 0] ∧ (exec St.init sampleHistory).running = 0 := by decide
@@ -1224,20 +1248,69 @@ theorem no_late_cancel (es : List Ev) (e : Ev) (tok : Nat)
 
 example : (step (exec St.init [.add 1, .ready 1, .beginQ 1 1, .kill 1, .endQ 1 1]) (.beginQ 1 2)).2 = .ok 1 := by decide
 
-/-! ## Findings on the unchanged tree -/
+/-! ## The repaired defect F-C37-a (`begin_query_error_path`) -/
 
-/-- F-C37-a. `BeginQuery` on an unregistered connection returns its error *after* counting the
-query: `Threads_running` = 1 with no session at all. -/
-theorem finding_begin_query_error_path :
+/-- **Full statement for `BeginQuery` (holds since the `fix:` commit; it was false before).** Every
+`BeginQuery` call inside the protocol — success *and* both error returns, no region guard — returns the
+Spec's result and re-establishes the refinement relation, in particular `Threads_running` = number
+of sessions in command Query. -/
+theorem beginQuery_refines {s : St} {a a' : ASt} {c pid : Nat} {r : Res}
+    (hs : Sim s a) (hi : PInv a.procs) (h : astep a (.beginQ c pid) = some (a', r)) :
+    (step s (.beginQ c pid)).2 = r ∧ Sim (step s (.beginQ c pid)).1 a' ∧ PInv a'.procs :=
+  sim_beginQ hs hi h
+
+/-- **A failed `BeginQuery` has no effect — every state, every argument, no protocol assumed.** If the
+call does not hand out a context, the whole `ProcessList` state (the two counters, the process list,
+the pid index, the cancelled contexts) is what it was. -/
+theorem beginQuery_error_no_effect (s : St) (c pid : Nat)
+    (h : ∀ tok, (step s (.beginQ c pid)).2 ≠ .ok tok) : (step s (.beginQ c pid)).1 = s := by
+  cases hl : lookup s.procs c with
+  | none => simp [step, hl]
+  | some p =>
+    cases hb : lookup s.byPid pid with
+    | some x => simp [step, hl, hb]
+    | none => exact absurd (by simp [step, hl, hb]) (h s.nextTok)
+
+/-- `Threads_running` moves in `BeginQuery` exactly when a context is handed out. -/
+theorem beginQuery_running (s : St) (c pid : Nat) :
+    (step s (.beginQ c pid)).1.running =
+      s.running + (match (step s (.beginQ c pid)).2 with | .ok _ => 1 | _ => 0) := by
+  cases hl : lookup s.procs c with
+  | none => simp [step, hl]
+  | some p =>
+    cases hb : lookup s.byPid pid with
+    | some x => simp [step, hl, hb]
+    | none => simp [step, hl, hb]
+
+example : (step St.init (.beginQ 1 1)).2 = .errNotRegistered ∧ (step St.init (.beginQ 1 1)).1.running = 0 := by decide
+example : (step (exec St.init [.add 1, .ready 1]) (.beginQ 1 1)).2 = .ok 0 ∧
+    (step (exec St.init [.add 1, .ready 1]) (.beginQ 1 1)).1.running = 1 := by decide
+
+/-- Witness of the repaired defect, first error return: before the `fix:` commit `BeginQuery` on an
+unregistered connection returned its error *after* counting the query (`Threads_running` = 1 with no
+session at all); the repaired `BeginQuery` leaves the counter at 0. If the increment moves back above
+the error returns, `facts_match` breaks and this history is the replay. -/
+theorem fixed_begin_query_error_path :
     ∃ es, (atrace ASt.init es).isSome = true ∧
-      (exec St.init es).running ≠ (cnt isQuery (exec St.init es).procs : Int) :=
+      (execPreFix St.init es).running ≠ (cnt isQuery (execPreFix St.init es).procs : Int) ∧
+      (exec St.init es).running = (cnt isQuery (exec St.init es).procs : Int) :=
   ⟨[.beginQ 1 1], by decide⟩
 
-/-- F-C37-a, second error return: the query id is already in use. -/
-theorem finding_begin_query_error_path_dup_pid :
+/-- Witness of the repaired defect, second error return: the query id is already in use. -/
+theorem fixed_begin_query_error_path_dup_pid :
     ∃ es, (atrace ASt.init es).isSome = true ∧
-      (exec St.init es).running ≠ (cnt isQuery (exec St.init es).procs : Int) :=
+      (execPreFix St.init es).running ≠ (cnt isQuery (execPreFix St.init es).procs : Int) ∧
+      (exec St.init es).running = (cnt isQuery (exec St.init es).procs : Int) :=
   ⟨[.add 1, .ready 1, .add 2, .ready 2, .beginQ 1 1, .beginQ 2 1], by decide⟩
+
+/-- Both old witnesses are inside the protocol and outside every remaining region, i.e. they are now
+covered by `refinement_partial` / `invariants_hold`. -/
+theorem fixed_witnesses_covered :
+    noRegion ASt.init [.beginQ 1 1] = true ∧
+    noRegion ASt.init [.add 1, .ready 1, .add 2, .ready 2, .beginQ 1 1, .beginQ 2 1] = true ∧
+    beginQueryErrorCall ASt.init (.beginQ 1 1) = true := by decide
+
+/-! ## Findings on the unchanged tree -/
 
 /-- F-C37-b. `RemoveConnection` while the connection's query is registered never gives the
 `Threads_running` increment back (the later `EndQuery` finds no process). -/
@@ -1257,8 +1330,6 @@ theorem finding_ready_during_operation :
 /-- Every witness above lies in its region (so the guard of `refinement_partial` is exactly what
 excludes it). -/
 theorem findings_in_regions :
-    noRegion ASt.init [.beginQ 1 1] = false ∧
-    noRegion ASt.init [.add 1, .ready 1, .add 2, .ready 2, .beginQ 1 1, .beginQ 2 1] = false ∧
     noRegion ASt.init [.add 1, .ready 1, .beginQ 1 1, .remove 1, .endQ 1 1] = false ∧
     noRegion ASt.init [.add 1, .beginOp 1, .ready 1, .kill 1, .endOp 1] = false := by decide
 
@@ -1266,14 +1337,17 @@ theorem findings_in_regions :
 
 /-- The code read back from /repo's working tree still has the shape the model transliterates:
 the four counter updates sit in the four methods with these deltas, the `Threads_running` increment
-of `BeginQuery` still precedes its first error return, `RemoveConnection` does not touch
+of `BeginQuery` comes after both of its error returns (the repair of F-C37-a: none of the two error
+returns follows the increment — if the increment moves back up, this obligation breaks and
+`fixed_begin_query_error_path` is the replay), `RemoveConnection` does not touch
 `Threads_running`, every event method holds `pl.mu` (atomic steps), `EndQuery`/`EndOperation`/`Kill`
 guard (or not) the `Kill` func exactly as modelled, and the command names are the three MySQL
 ones. -/
 theorem facts_match :
     Generated.C37.counterEffects = counterEffects ∧
-    Generated.C37.beginQueryIncrementBeforeErrorReturns = true ∧
+    Generated.C37.beginQueryIncrementBeforeErrorReturns = false ∧
     Generated.C37.beginQueryErrorReturns = 2 ∧
+    Generated.C37.beginQueryErrorReturnsAfterIncrement = 0 ∧
     Generated.C37.methodsUnderMutex =
       ["AddConnection", "BeginOperation", "BeginQuery", "ConnectionReady", "EndOperation", "EndQuery", "Kill",
        "Processes", "RemoveConnection"] ∧
